@@ -383,10 +383,27 @@ fn queries(run: &mut Run, rng: &mut Rng) {
         }
         // ---------------- the query
         let is_topk = rng.chance(1, 4);
+        let mut topk_ref: Option<Vec<String>> = None;
         let sql = if is_topk {
             let k = if rng.chance(1, 2) { rng.below(5) } else { rng.below(13) };
             let (dir, nulls) = (*rng.pick(&["ASC", "DESC"]), *rng.pick(&["NULLS FIRST", "NULLS LAST"]));
             let tbl = if rng.chance(1, 2) { ("l", "l_a", "l_b", "l_x") } else { ("r", "r_c", "r_d", "r_y") };
+            // reference: full sort of the table by (key1, key2, payload) in the requested direction, first k rows
+            {
+                let mut rows: Vec<Row> = if tbl.0 == "l" { l.clone() } else { r.clone() };
+                let (desc, nf) = (dir == "DESC", nulls == "NULLS FIRST");
+                let cmp1 = |a: &Option<i64>, b: &Option<i64>| match (a, b) {
+                    (None, None) => std::cmp::Ordering::Equal,
+                    (None, Some(_)) => if nf { std::cmp::Ordering::Less } else { std::cmp::Ordering::Greater },
+                    (Some(_), None) => if nf { std::cmp::Ordering::Greater } else { std::cmp::Ordering::Less },
+                    (Some(x), Some(y)) => if desc { y.cmp(x) } else { x.cmp(y) },
+                };
+                rows.sort_by(|a, b| cmp1(&a[0], &b[0]).then(cmp1(&a[1], &b[1])).then(cmp1(&a[2], &b[2])));
+                rows.truncate(k as usize);
+                let mut shown: Vec<String> = rows.iter().map(|r| r.iter().map(|c| c.map(|v| v.to_string()).unwrap_or_else(|| "N".into())).collect::<Vec<_>>().join(",")).collect();
+                shown.sort();
+                topk_ref = Some(shown);
+            }
             run.count("query_topk");
             // a trivially true WHERE gives the plan a FilterExec that can take the dynamic filter
             format!(
@@ -455,6 +472,14 @@ fn queries(run: &mut Run, rng: &mut Rng) {
             }
         }
         let sig_in = format!("source={} sql=`{sql}` l={l:?} r={r:?} lparts={lparts} rparts={rparts} target_partitions={parts} batch_size={batch} inlist_cfg={rc:?}", if use_parquet { "parquet" } else { "memtable" });
+        // ORDER BY over all three columns: the first k rows are determined as a multiset
+        if let Some(want) = &topk_ref {
+            for (which, res) in ["off", "on"].iter().zip(&results) {
+                if let Ok(got) = res {
+                    run.oracle(got == want, &format!("TopK result differs from the full sort (pushdown {which}): {sig_in}"), &format!("iteration {it}: want={want:?} got={got:?}"));
+                }
+            }
+        }
         let same = results[0] == results[1] && results[0].is_ok();
         run.oracle(
             same,
